@@ -80,7 +80,9 @@ def inline_into(caller_raw, callee_raw, bi):
     blk = new['blocks'][bi]
     for i, a in enumerate(call['args']):
         blk['stmts'].append({'k': 'assign', 'dst': {'l': L + 1 + i, 'p': []}, 'rv': {'k': 'use', 'o': copy.deepcopy(a)}, 's': span, 'inl': 'arg'})
-    blk['term'] = {'k': 'goto', 't': B}
+    blk['term'] = {'k': 'goto', 't': B, 'inl_call': callee_raw['id']}
+    for cb in cal['blocks']:
+        cb.setdefault('inl_site', bi)      # the caller block whose call this copy replaces (outermost for nested copies)
     cleanup = blk['cleanup']
     for cb in cal['blocks']:
         t = cb['term']
